@@ -426,7 +426,12 @@ LibPureOK(name, a, heap, off) ==     \* a = validated arguments
       [] name = "mathRound" ->
             IF ~IsQ(a[1]) THEN SkipR(heap)
             ELSE IF Ix(a[2]) > 300 THEN R(W({"null", "fin"}), heap)                 \* 10^digits leaves the double range: null or the number
-            ELSE IF a[1].d = 1 THEN R(a[1], heap)                                   \* an integer rounds to itself
+            \* beyond 15 digits x * 10^digits is no longer exact in doubles: the result is the number up to rounding error
+            \* (mathRound(2024, 100) = 2024.0000000000002); numeric accuracy is not what this specification decides
+            ELSE IF Ix(a[2]) > 15 THEN R(AnyFinite, heap)
+            \* an integer rounds to itself (stated where n * 10^digits is certainly exact: up to 3 digits, or a small integer)
+            ELSE IF a[1].d = 1 /\ (Ix(a[2]) <= 3 \/ Abs(a[1].n) < 9) THEN R(a[1], heap)
+            ELSE IF a[1].d = 1 THEN R(AnyFinite, heap)
             ELSE IF Abs(a[1].n) > 500000000 THEN R(AnyFinite, heap)
             ELSE IF Ix(a[2]) = 0 THEN                                               \* halves away from zero
                 R(IF a[1].n >= 0 THEN IntV(FloorQ(Q(2 * a[1].n + a[1].d, 2 * a[1].d))) ELSE IntV(-FloorQ(Q(-2 * a[1].n + a[1].d, 2 * a[1].d))), heap)
